@@ -255,7 +255,7 @@ def scale_free_comparison_rule(repo: Repo, prop: str, rule_id: str, functions, a
     return r
 
 
-def perpendicular_guards_rule(repo: Repo, prop: str, rule_id: str, module_prefixes=("construct.",), floor: int = 3, words=("perpendicular",), example: str = "") -> RuleRun:
+def perpendicular_guards_rule(repo: Repo, prop: str, rule_id: str, module_prefixes=("construct.",), floor: int = 3, words=("perpendicular",), example: str = "", strict: bool = False) -> RuleRun:
     """'radius vectors not perpendicular to the axis [are rejected] in either direction' - for a shape of any size: the guards that
     raise '... not perpendicular' compare a cosine-like quantity. The homogeneity degree of both sides is followed through the
     constructor (parameters of point / vector type have degree 1, normalised vectors 0, products add): a dot product of two
@@ -307,7 +307,7 @@ def perpendicular_guards_rule(repo: Repo, prop: str, rule_id: str, module_prefix
                             n += 1
                             diff = None if a_ is None or b_ is None else abs(a_ - b_)
                             r.check(
-                                diff is None or diff in (0, 1),
+                                diff is None or diff in ((0,) if strict else (0, 1)),
                                 fn,
                                 f"'{ast.unparse(node)[:50]}': degrees {a_} vs {b_}",
                                 f"{fn.qualname}: the {words[0]} guard '{ast.unparse(node)[:70]}' compares a quantity that scales with the shape's size to the power {a_} against one of power {b_} "
